@@ -17,7 +17,8 @@ def load_checks():
     for fn in sorted(os.listdir(d)):
         if fn.startswith('C') and fn.endswith('.py'):
             mod = importlib.import_module('harness.props.' + fn[:-3])
-            if getattr(mod, 'MANIFEST', None):
+            lean_props = os.path.join(VERIF, 'lean', 'StoneVerif', 'Props', fn[:-3] + '.lean')
+            if getattr(mod, 'MANIFEST', None) and os.path.exists(lean_props):
                 out[fn[:-3]] = mod.MANIFEST
     return out
 
